@@ -71,10 +71,29 @@ Theorem cg_residual_is_true_residual :
 Proof. exact cg_residual_tracked. Qed.
 Print Assumptions cg_residual_is_true_residual.
 
-(* "exact after dimension-many steps" is NOT proved here (needs the full Krylov
-   conjugacy argument plus a dimension count); it is watched by a probe.
-   Partial result above: the loop stops (`return`) only when <p, A p> = 0, and the energy
-   error strictly decreases at every executed step with non-zero residual. *)
+(* exact after dimension-many steps: in a space where n+1 mutually orthogonal vectors cannot all
+   be non-zero (dimension <= n), for A symmetric positive definite and any budget k >= n, the
+   last state visited by conjugate_gradient carries the exact solution -- whether the loop ran all
+   k steps or left early through one of its `return`s.  Proof: the full Krylov invariant
+   (residuals mutually orthogonal, directions A-conjugate) by induction over the loop. *)
+Theorem cg_exact_after_dimension_many_steps :
+  forall (X : IPS) (A : LinOp X X),
+  (forall x y : X, <<A x, y>> = <<x, A y>>) -> (forall x : X, <<x, A x>> = 0 -> x = vnull) ->
+  forall (n : nat) (b xs x : X) (k : nat),
+  (forall l : list X, length l = S n -> ForallOrdPairs (fun u v => <<u, v>> = 0) l -> exists v, In v l /\ v = vnull) ->
+  A xs = b -> (n <= k)%nat ->
+  cg_x X (last (cg_run X vplus smul inner A b x k) (cg_init X vplus smul inner A b x)) = xs.
+Proof. intros X A Hs Hd n b xs x k Hdim; exact (cg_exact_after_dim X A Hs Hd n b xs x k Hdim). Qed.
+Print Assumptions cg_exact_after_dimension_many_steps.
+(* the residuals of all visited states are mutually orthogonal, the earlier ones non-zero *)
+Theorem cg_krylov_invariant_preserved :
+  forall (X : IPS) (A : LinOp X X),
+  (forall x y : X, <<A x, y>> = <<x, A y>>) ->
+  forall (b : X) (hist : list (@cgst R X)) (s s' : @cgst R X),
+  krylov X A b hist s -> cg_step X vplus smul inner A s = Some s' -> krylov X A b (s :: hist) s'.
+Proof. intros X A Hs; exact (krylov_step X A Hs). Qed.
+(* gap: dim_le is shown for the instance R (n = 1, Example below); for R^n with n > 1 the
+   dimension count (n+1 vectors in R^n are linearly dependent) is not formalised. *)
 
 (* -------------------------------------------- CG on the normal equations *)
 (* residual |b - A x|^2 never increases (any A with adjoint, any b, start, budget) *)
@@ -372,9 +391,10 @@ Example hypotheses_satisfiable :
   (forall c (x : R1), 0 <= c -> 0 <= <<x, scal_op c x>>) /\
   convex R1 f_zero /\ prox_of R1 f_zero (fun _ z => z) /\
   convex R1 f_abs /\ prox_of R1 f_abs softR /\ subgrad R1 f_abs 0 0 /\
-  pblk_ok R1 R1 wblk.
+  pblk_ok R1 R1 wblk /\ dim_le R1 1 /\ (forall c (x : R1), 0 < c -> <<x, scal_op c x>> = 0 -> x = vnull).
 Proof.
   split; [exact scal_op_bounded|]. split; [exact scal_op_sym|]. split; [exact scal_op_pos|].
   split; [exact f_zero_convex|]. split; [exact f_zero_prox|]. split; [exact f_abs_convex|].
-  split; [exact f_abs_prox|]. split; [exact f_abs_subgrad0|]. exact wblk_ok.
+  split; [exact f_abs_prox|]. split; [exact f_abs_subgrad0|]. split; [exact wblk_ok|].
+  split; [exact R1_dim | exact scal_op_definite].
 Qed.
